@@ -746,6 +746,8 @@ func (x *Exec) mapGet(st *State, m Term, kt, vt types.Type, key Term) Val {
 		ls = append(ls, Ite(has, v, zs[k]))
 	}
 	v, _ := unflatten(vt, ls)
+	st.assumeWF(v, vt)
+	st.assumeAllocated(v) // whatever a map holds existed before anything allocated from now on
 	return v
 }
 
